@@ -221,7 +221,7 @@ Definition run_prog (gcf : list instr -> option (list instr)) (inp : sx) : sx :=
                      wf_prog of the step list, consts_tabled (the extra hypothesis
                      of the simulation theorem), no_premature_reuse of the gc'd
                      list (2 = not evaluated: more than 4096 wire ids) *)
-                  SL [ofB (wf_prog p steps); ofB (consts_tabled p steps);
+                  SL [ofB (wf_prog p steps && outbits_ok p steps); ofB (consts_tabled p steps);
                       if (fold_left N.max (map ct_maxid (ss_trace st)) 0 <=? 4096)%N
                       then ofB (no_premature_reuse p gsteps) else SZ 2]]
           end
